@@ -193,7 +193,21 @@ def outcome(ret):
     return ('?', ret)
 
 
+def _serdes_interp(fx, M):
+    import inline as INL
+    local_serdes = set()
+    for i_ in fx.impls_of(SERDES):
+        for it in i_['items']:
+            local_serdes.add(it['def'])
+    I = exp.Interp(fx, 'none', extra_transfer=M.transfer, max_paths=96, inline=lambda q: q in local_serdes or INL.is_private_helper(fx, q))
+    I.fork_inlined = True
+    return I
+
+
 def rule_point_deserializers(fx, rep):
+    """Per point type and per (bit 7 of the first stream byte, `compressed` argument): what is read, what is decoded and what is
+    returned, decided over a byte-provenance model of the buffers (serdesmodel.py)."""
+    import serdesmodel as SM
     n = 0
     for name, ty, cty, uty, sc, su, projective in POINTS:
         path = fx.impl_method(SERDES, ty, 'deserialize')
@@ -205,76 +219,68 @@ def rule_point_deserializers(fx, rep):
         where = fx.fn(path)['span']
         for b7, comp in itertools.product((0, 1), (0, 1)):
             inst = '%s:deserialize:bit7=%d,compressed=%d' % (name, b7, comp)
-            R = DeRun(fx, path, b7, comp)
+            M = SM.Model(fx, b7=b7)
+            M.on_stream = lambda fr, op, local, _M=M: fr.deref_operand(op) == 'READER'
+            I = _serdes_interp(fx, M)
             try:
-                res = R.run()
+                res = I.run(path, [('byref', 'READER'), Int(comp, 1)])
             except (exp.NotDerivable, exp.Budget) as e:
                 rep.fail('TABLE', inst, 'not derivable: %s' % e, where, construct=path)
                 continue
-            rep.sites(R.call_sites)
+            rep.sites(I.call_sites)
             bad = []
             oks = 0
+            want_ty = cty if comp else uty
+            want_n = sc if comp else su
             for pth, ret, _ in res:
-                oc = outcome(ret)
                 reads = [e for e in pth.events if e[0] == 'stream-read']
                 labs = [lab_name(l) for l in pth.labels]
                 for e in pth.events:
-                    if e[0] in ('copy-unrecognised', 'buffer-size-unknown') or e[0].startswith('assert-'):
-                        bad.append('event %r' % (e,))
+                    if e[0] in ('copy-unrecognised', 'buffer-unknown', 'copy-length-mismatch', 'split-out-of-range') or e[0].startswith('assert-'):
+                        bad.append('event %r' % (e[:3],))
                 for e in reads:
                     if e[1] != 'read_exact':
                         bad.append('stream is read with Read::%s at %s (a short read is not an error): truncated input can be accepted' % (e[1], e[4]))
                     if not e[3]:
                         bad.append('reads from something other than the caller\'s reader at %s' % e[4])
-                if oc[0] == 'panic':
-                    bad.append('panic edge %r' % (oc[1],))
+                if isinstance(ret, tuple) and ret and ret[0] == 'diverges':
+                    bad.append('panic edge %r' % (ret[1],))
                     continue
-                first_n = reads[0][2] if reads else None
-                if first_n != sc:
-                    bad.append('first read is %r bytes, expected the compressed size %d' % (first_n, sc))
-                try_labs = [l for l in labs if l[0] == 'try']
+                r = SM.as_result(ret)
+                oc = r[0] if r else '?'
+                io_err = any(l[0] in ('try', 'io') and l[1] for l in labs)
                 dec_labs = [l for l in labs if l[0] == 'decode']
-                if b7 != comp:
-                    # must fail right after the first read, before reading more
-                    if try_labs and try_labs[0][1]:
-                        if oc[0] != 'Err':
-                            bad.append('I/O error not propagated')
-                        continue
-                    if try_labs and try_labs[-1][1]:
-                        if oc[0] != 'Err':
-                            bad.append('I/O error not propagated')
-                        continue
-                    if oc[0] != 'Err':
-                        bad.append('a compression flag that contradicts the data yields %s (after %d reads)' % (oc[0], len(reads)))
-                    continue
-                # flag agrees
-                want_reads = [sc] if comp else [sc, su - sc]
-                # error paths from read_exact
-                if try_labs and try_labs[-1][1]:
-                    if oc[0] != 'Err':
+                if io_err:
+                    if oc != 'Err':
                         bad.append('I/O error not propagated as Err')
                     continue
-                if [e[2] for e in reads] != want_reads:
-                    bad.append('reads %s bytes, expected %s' % ([e[2] for e in reads], want_reads))
+                if reads and reads[0][2] is not None and reads[0][2] > sc:
+                    bad.append('first read is %r bytes: more than the compressed size %d is consumed before the form flag can be known' % (reads[0][2], sc))
+                if b7 != comp:
+                    if oc != 'Err':
+                        bad.append('a compression flag that contradicts the data yields %s (after %d reads)' % (oc, len(reads)))
+                    continue
+                total = sum(e[2] or 0 for e in reads)
+                if total != want_n:
+                    bad.append('reads %s bytes, expected %d in total' % ([e[2] for e in reads], want_n))
                     continue
                 decs = [e for e in pth.events if e[0] == 'decode']
                 if len(decs) != 1:
                     bad.append('%d decoder calls' % len(decs))
                     continue
-                _, dname, dty, dval, dwhere = decs[0]
-                want_ty = cty if comp else uty
+                _, dname, dty, data, dwhere = decs[0]
                 if dname != 'into_affine':
                     bad.append('uses the UNCHECKED decoder %s::%s at %s: curve and subgroup checks are skipped' % (dty, dname, dwhere))
                 if dty != want_ty:
                     bad.append('decodes as %s, expected %s' % (dty, want_ty))
-                if not (isinstance(dval, tuple) and dval[0] == 'enc' and dval[3] is not None and sum(p[1] for p in dval[3]) == dval[2] and all(p[0] == 'stream' for p in dval[3])):
-                    bad.append('decoder input is %r, expected exactly the %d stream bytes' % (dval, su if not comp else sc))
-                if dec_labs and dec_labs[-1][1] != (oc[0] == 'Err'):
-                    # discriminant 0 = Ok, 1 = Err
-                    bad.append('decoder result %s mapped to %s' % ('Err' if dec_labs[-1][1] else 'Ok', oc[0]))
-                if oc[0] == 'Ok':
+                if not (data is not None and len(data) == want_n and all(isinstance(x, SM.SByte) and x.idx == k for k, x in enumerate(data))):
+                    bad.append('decoder input is not exactly the %d stream bytes in order: %r' % (want_n, (data or [])[:4]))
+                dec_err = bool(dec_labs and dec_labs[-1][1])
+                if dec_err != (oc == 'Err'):
+                    bad.append('decoder result %s mapped to %s' % ('Err' if dec_err else 'Ok', oc))
+                if oc == 'Ok':
                     oks += 1
-                    inner = oc[1]
+                    inner = r[1]
                     want_inner = ('proj', ('decoded', want_ty, 'into_affine')) if projective else ('decoded', want_ty, 'into_affine')
                     if inner != want_inner and dname == 'into_affine':
                         bad.append('Ok carries %r' % (inner,))
@@ -282,12 +288,13 @@ def rule_point_deserializers(fx, rep):
                 bad.append('%d success paths' % oks)
             rep.check(not bad, 'TABLE', inst,
                       ('mismatch -> error on every path' if b7 != comp else
-                       ('read %d, checked %s decode' % (sc, 'compressed') if comp else 'read %d + %d, checked uncompressed decode' % (sc, su - sc))),
+                       'reads exactly %d bytes with read_exact, decodes exactly those bytes with the checked %s decoder, Ok iff the decoder accepts' % (want_n, 'compressed' if comp else 'uncompressed')),
                       '; '.join(sorted(set(bad))[:4]), where, construct=path)
     rep.floor('TABLE', 'point-deserializers', n, 4)
 
 
 def rule_point_serializers(fx, rep):
+    import serdesmodel as SM
     n = 0
     for name, ty, cty, uty, sc, su, projective in POINTS:
         path = fx.impl_method(SERDES, ty, 'serialize')
@@ -298,64 +305,46 @@ def rule_point_serializers(fx, rep):
         rep.fn(path)
         n += 1
         where = fx.fn(path)['span']
-        outs = {}
         for comp in (0, 1):
-            def tr(I, fr, t, c, pth):
-                nm = c.get('name')
-                if nm == 'from_affine' and c.get('trait') == 'EncodedPoint':
-                    fr.storev(t['dest'], ('encoded', c.get('self_ty'), fr.operand(t['args'][0])))
-                    return True
-                if nm == 'into_affine' and c.get('trait') == 'CurveProjective':
-                    fr.storev(t['dest'], ('affine_of', fr.deref_operand(t['args'][0])))
-                    return True
-                if nm in ('as_ref',):
-                    fr.storev(t['dest'], fr.deref_operand(t['args'][0]))
-                    return True
-                if nm == 'to_vec':
-                    fr.storev(t['dest'], ('vec', I.value_of_ref(fr, t['args'][0])))
-                    return True
-                if nm == 'write_all':
-                    rd = fr.res.operand_referent(t['args'][0])
-                    pth.events.append(('write_all', I.value_of_ref(fr, t['args'][1]), rd is not None and rd[0] == 'place' and rd[1]['l'] == 2, t['span']))
-                    fr.storev(t['dest'], ('io_result',))
-                    return True
-                if nm in ('deref',) and 'Vec' in (c.get('res') or ''):
-                    fr.storev(t['dest'], fr.deref_operand(t['args'][0]))
-                    return True
-                if nm == 'branch' and c.get('trait') == 'std::ops::Try':
-                    fr.storev(t['dest'], Opt(None, ('try',), ('try', 'w', t['span'])))
-                    return True
-                if nm == 'from_residual':
-                    fr.storev(t['dest'], ('residual',))
-                    return True
-                return False
-            I = exp.Interp(fx, 'none', extra_transfer=tr)
+            M = SM.Model(fx)
+            M.on_stream = lambda fr, op, local, _M=M: fr.deref_operand(op) == 'WRITER'
+            I = _serdes_interp(fx, M)
             try:
-                res = I.run(path, [('byref', 'SELF'), ('byref', TOP), Int(comp, 1)])
+                res = I.run(path, [('byref', 'SELF'), ('byref', 'WRITER'), Int(comp, 1)])
             except (exp.NotDerivable, exp.Budget) as e:
                 rep.fail('WIRE', '%s:serialize:compressed=%d' % (name, comp), 'not derivable: %s' % e, where)
                 continue
             rep.sites(I.call_sites)
             bad = []
+            want_ty = cty if comp else uty
+            want_n = sc if comp else su
+            src = ('affine_of', 'SELF') if projective else 'SELF'
+            want = [('eb', want_ty, src, j) for j in range(want_n)]
             for pth, ret, _ in res:
-                ws = [e for e in pth.events if e[0] == 'write_all']
+                if isinstance(ret, tuple) and ret and ret[0] == 'diverges':
+                    bad.append('panic edge %r' % (ret[1],))
+                    continue
+                ws = [e for e in pth.events if e[0] == 'stream-write']
                 if len(ws) != 1:
                     bad.append('%d writes' % len(ws))
                     continue
-                v = ws[0][1]
-                want_ty = cty if comp else uty
-                src = ('affine_of', 'SELF') if projective else 'SELF'
-                ok = isinstance(v, tuple) and v[0] == 'vec' and isinstance(v[1], tuple) and v[1][0] == 'encoded' and v[1][1] == want_ty and v[1][2] == src
-                if not ok:
-                    bad.append('writes %r, expected the %s encoding of %s' % (v, want_ty.rsplit('::', 1)[1], src))
-                if not ws[0][2]:
+                _, wname, data, on_writer, wwhere = ws[0]
+                if wname != 'write_all':
+                    bad.append('writes with Write::%s (a short write is not an error)' % wname)
+                if data != want:
+                    got = data[0] if data else None
+                    bad.append('writes %s, expected the %d bytes of the %s encoding of %s' % (('%d bytes starting with %r' % (len(data), got)) if data is not None else 'an unknown buffer', want_n, want_ty.rsplit('::', 1)[1], 'the affine form of self' if projective else 'self'))
+                if not on_writer:
                     bad.append('does not write to the caller\'s writer')
                 labs = [lab_name(l) for l in pth.labels]
-                oc = outcome(ret)
-                if labs and labs[-1][0] == 'try' and labs[-1][1] and oc[0] != 'Err':
+                r = SM.as_result(ret)
+                werr = any(l[0] == 'write' and l[1] for l in labs)
+                if werr and not (r and r[0] == 'Err'):
                     bad.append('write error not propagated')
-            rep.check(not bad, 'WIRE', '%s:serialize:compressed=%d' % (name, comp), 'writes exactly the %s point encoding (%d bytes) with write_all' % ('compressed' if comp else 'uncompressed', sc if comp else su),
-                      '; '.join(bad), where, construct=path)
+                if not werr and r and r[0] == 'Err':
+                    bad.append('returns Err although the write succeeded')
+            rep.check(not bad, 'WIRE', '%s:serialize:compressed=%d' % (name, comp), 'writes exactly the %s point encoding (%d bytes) with one write_all to the caller\'s writer; its error is propagated' % ('compressed' if comp else 'uncompressed', want_n),
+                      '; '.join(sorted(set(bad))[:3]), where, construct=path)
     rep.floor('WIRE', 'point-serializers', n, 4)
 
 
